@@ -19,6 +19,7 @@ import (
 	"net/http/httptest"
 	"os"
 	"os/exec"
+	"path/filepath"
 	"runtime"
 	"runtime/debug"
 	"strings"
@@ -29,8 +30,78 @@ import (
 
 	"github.com/php-any/origami/data"
 	"github.com/php-any/origami/node"
+	"github.com/php-any/origami/std/net/annotation"
 	ohttp "github.com/php-any/origami/std/net/http"
 )
+
+// verif_capture($server): hands the server's ServeMux to the engine (route "annot": the script is a file run with
+// LoadAndRun, its variables are not reachable through the parser)
+type captureFn struct{ mux *http.ServeMux }
+
+func (f *captureFn) Call(ctx data.Context) (data.GetValue, data.Control) {
+	v, _ := ctx.GetIndexValue(0)
+	if pv, ok := v.(*data.ProxyValue); ok {
+		if src, ok := pv.Class.(interface{ GetSource() any }); ok {
+			if m, ok := src.GetSource().(*http.ServeMux); ok {
+				f.mux = m
+			}
+		}
+	}
+	return nil, nil
+}
+func (f *captureFn) GetName() string { return "verif_capture" }
+func (f *captureFn) GetParams() []data.GetValue {
+	return []data.GetValue{node.NewParameter(nil, "s", 0, nil, nil)}
+}
+func (f *captureFn) GetVariables() []data.Variable {
+	return []data.Variable{node.NewVariable(nil, "s", 0, nil)}
+}
+
+// route "annot": the application is mounted through the annotation router ($server->boot): a #[Controller] whose
+// #[PostMapping] method runs the generated handler h(), wrapped by a #[Middleware] CLASS that keeps the id of the
+// request it is serving on $this between its two halves (header X-Mw0 before $next, body marker m0b after it)
+func mkAnnotHandler(c *Case, withGates bool, gs map[int]*gateState) (http.Handler, string) {
+	vm, _ := vrun.NewVM()
+	annotation.Load(vm)
+	vm.SetThrowControl(func(acl data.Control) {})
+	if ctl := vm.RegisterFunction("verif_gate", gateFnFor(gs)); ctl != nil {
+		return nil, "register: " + ctl.AsString()
+	}
+	cf := &captureFn{}
+	vm.AddFunc(cf)
+	dir, err := os.MkdirTemp("", "c11annot")
+	if err != nil {
+		return nil, err.Error()
+	}
+	defer os.RemoveAll(dir)
+	files := map[string]string{
+		"index.php": "<?php\nuse Net\\Http\\Server;\n" + script(c.Segs, withGates, c.Quiet, false) +
+			"require __DIR__ . '/src/C11App.php';\n$server = new Server();\n$server->boot(C11App::class);\nverif_capture($server);\n",
+		"src/C11App.php": "<?php\nuse Net\\Annotation\\Application;\n#[Application(name: 'c11', scan: __DIR__)]\nclass C11App { public static function boot(): void {} }\n",
+		"src/C11Audit.php": "<?php\nclass C11Audit {\n  private $mid = 'nobody';\n  public function handle($request, $response, $next) {\n" +
+			"    $this->mid = $request->input('id');\n    $response->header('X-Mw0', $this->mid);\n    $next($request, $response);\n" +
+			"    $response->write('m0b=' . $this->mid . ';');\n  }\n}\n",
+		"src/C11Controller.php": "<?php\nuse Net\\Annotation\\Controller;\nuse Net\\Annotation\\Route;\nuse Net\\Annotation\\PostMapping;\nuse Net\\Annotation\\Middleware;\n" +
+			"#[Middleware(C11Audit::class)]\n#[Controller]\n#[Route(prefix: \"/api\")]\nclass C11Controller {\n  #[PostMapping(path: \"/h\")]\n" +
+			"  public function item($request, $response) { h($request, $response); }\n}\n",
+	}
+	for name, src := range files {
+		full := filepath.Join(dir, name)
+		if err := os.MkdirAll(filepath.Dir(full), 0o755); err != nil {
+			return nil, err.Error()
+		}
+		if err := os.WriteFile(full, []byte(src), 0o644); err != nil {
+			return nil, err.Error()
+		}
+	}
+	if _, acl := vm.LoadAndRun(filepath.Join(dir, "index.php")); acl != nil {
+		return nil, "run: " + acl.AsString()
+	}
+	if cf.mux == nil {
+		return nil, "server not captured"
+	}
+	return cf.mux, ""
+}
 
 type Case struct {
 	Segs       [][]string `json:"segs"`
@@ -70,6 +141,9 @@ var readExpr = map[string]string{
 	"_POST":     `$_POST["pid"]`,
 	"_COOKIE":   `$_COOKIE["sid"]`,
 	"_SERVER":   `$_SERVER["QUERY_STRING"]`,
+	// a CONDITIONAL $_SERVER entry: only odd requests send the header X-Opt: <id>; when the entry is absent the read
+	// answers the request's own id (used in serial shapes only: there the model says "own")
+	"_SERVERH":  `(isset($_SERVER["HTTP_X_OPT"]) ? $_SERVER["HTTP_X_OPT"] : $id)`,
 	"_REQUEST":  `$_REQUEST["id"]`,
 	"_REQUESTP": `$_REQUEST["pid"]`,
 	"_REQUESTC": `$_REQUEST["sid"]`,
@@ -102,6 +176,20 @@ var readExpr = map[string]string{
 	"rurl":      `c11_after($r->fullUrl(), "id=")`,
 	// bind(): a DTO with property defaults; odd requests send opt=<id>, even ones omit it and must get the default
 	"rbind":     `c11_bind($r->bind("C11Dto"), $id)`,
+	// the response is a JSON object written with $w->json([...]) (string keys and string values that carry the request's
+	// id): the engine decodes the body and puts the verdict (the id, or what was wrong) in this read's place
+	"jsonbody": `"JSON"`,
+}
+
+func jsonMode(segs [][]string) bool {
+	for _, s := range segs {
+		for _, r := range s {
+			if r == "jsonbody" {
+				return true
+			}
+		}
+	}
+	return false
 }
 
 // statements run just before a read: the in-place mutation of the captured variable
@@ -142,7 +230,10 @@ func script(segs [][]string, gates bool, quiet bool, capt bool) string {
 			fmt.Fprintf(&sb, "  $out = $out . \"s%dr%d=\" . %s . \";\";\n", k, j, readExpr[rd])
 		}
 	}
-	if quiet {
+	if jsonMode(segs) {
+		sb.WriteString("  $w->header(\"X-Id\", $id);\n  $w->status(200 + $n);\n")
+		sb.WriteString("  $w->json([\"k\" . $id => \"v\" . $id, \"out\" => $out, \"pad\" . $id => str_repeat(\"p\" . $id . \"-\", 6), \"name\" => \"req\" . $id, \"id\" => $id]);\n}")
+	} else if quiet {
 		sb.WriteString("  $w->header(\"X-Id\", $id);\n  $w->status(200 + $n);\n  $w->header(\"X-Out\", $out);\n}")
 	} else {
 		sb.WriteString("  $w->header(\"X-Id\", $id);\n  $w->status(200 + $n);\n  $w->write($out);\n}")
@@ -206,6 +297,9 @@ func mkRequest(i int) *http.Request {
 	req := httptest.NewRequest("POST", fmt.Sprintf("%s?id=%d", routePath, i), body)
 	req.Header.Set("Content-Type", "application/x-www-form-urlencoded")
 	req.Header.Set("X-Tag", fmt.Sprint(i))
+	if i%2 == 1 {
+		req.Header.Set("X-Opt", fmt.Sprint(i))
+	}
 	req.AddCookie(&http.Cookie{Name: "sid", Value: fmt.Sprint(i)})
 	_ = req.ParseForm()
 	return req
@@ -223,6 +317,9 @@ func parseBody(b string) map[string]string {
 
 // build the handler: either the Handler value directly, or a real Server's ServeMux with the route registered by script
 func mkHandler(c *Case, withGates bool, gs map[int]*gateState) (http.Handler, string) {
+	if c.Route == "annot" {
+		return mkAnnotHandler(c, withGates, gs)
+	}
 	vm, p := vrun.NewVM()
 	vm.SetThrowControl(func(acl data.Control) {})
 	if ctl := vm.RegisterFunction("verif_gate", gateFnFor(gs)); ctl != nil {
@@ -334,7 +431,36 @@ func serve(h http.Handler, i int) (r Resp) {
 			mwa = append(mwa, "-")
 		}
 	}
-	return Resp{Status: res.StatusCode, XId: res.Header.Get("X-Id"), Mw: mw, MwA: mwa, MwG: res.Header.Get("X-MwG"), Fields: parseBody(rec.Body.String() + ";" + extra)}
+	bodyText := rec.Body.String()
+	if t := strings.TrimSpace(bodyText); strings.HasPrefix(t, "{") {
+		// JSON mode: decode, check every string key / value against this request's id, then read the fields from "out"
+		verdict := fmt.Sprint(i)
+		var m map[string]any
+		dec := t
+		if k := strings.LastIndex(dec, "}"); k >= 0 {
+			dec = dec[:k+1] // a middleware may have appended its marker after the JSON document
+		}
+		if err := json.Unmarshal([]byte(dec), &m); err != nil {
+			verdict = "unparsable"
+		} else {
+			id := fmt.Sprint(i)
+			want := map[string]string{"k" + id: "v" + id, "pad" + id: strings.Repeat("p"+id+"-", 6), "name": "req" + id, "id": id}
+			for k, v := range want {
+				if got, _ := m[k].(string); got != v {
+					verdict = "bad-" + k
+				}
+			}
+			if len(m) != len(want)+1 {
+				verdict = "keys"
+			}
+		}
+		out, _ := m["out"].(string)
+		bodyText = strings.ReplaceAll(out, "=JSON;", "="+verdict+";") + t[len(dec):]
+		if m == nil {
+			bodyText = "json=" + verdict + ";"
+		}
+	}
+	return Resp{Status: res.StatusCode, XId: res.Header.Get("X-Id"), Mw: mw, MwA: mwa, MwG: res.Header.Get("X-MwG"), Fields: parseBody(bodyText + ";" + extra)}
 }
 
 func runGated() {
@@ -370,6 +496,9 @@ func runGated() {
 		routePath = "/h"
 		if c.Route == "mux" && c.Group {
 			routePath = "/g/h"
+		}
+		if c.Route == "annot" {
+			routePath = "/api/h"
 		}
 		if c.Yields {
 			node.VerifYieldHook = yieldFn
@@ -492,6 +621,9 @@ func runChild() {
 		routePath = "/h"
 		if c.Route == "mux" && c.Group {
 			routePath = "/g/h"
+		}
+		if c.Route == "annot" {
+			routePath = "/api/h"
 		}
 		if c.Warmup {
 			serve(h, 99)
